@@ -68,6 +68,8 @@ def run(prog, rep):
     rep.rule('R4.4', 'conversion functions throw only std::invalid_argument / std::out_of_range (internal errors tabled)', floor=40)
     rep.rule('R4.5', 'the policy mappers give out_of_range the overflow policy and invalid_argument (or a catch-all) the mismatched-types policy', floor=4)
 
+    check_integer_conversion(prog, rep)
+
     # ---------------------------------------------------------------- R4.1
     loaders = ('SerializeValue', 'LoadValue', 'ReadInteger', 'ReadValue', 'GetValue', 'LoadAttrValue')
     for f in sorted(prog.funcs.values(), key=lambda x: x.id):
@@ -306,3 +308,70 @@ def check_convert_by_policy(f):
                 problems.append('recoding: %s thrown inside the try is caught by the same statement\'s catch(...) and leaves with another error code'
                                 % x.get('tt'))
     return problems
+
+
+# ---------------------------------------------------------------------------------------- R4.6 range check of the integer conversion
+def check_integer_conversion(prog, rep):
+    """Convert::Detail::To(integer -> integer), every instantiation: the source ranges over its whole type (interval cells split adaptively
+    until every guard is decided); a value is stored iff it is representable in the target, the stored value is the source value, and
+    everything else throws std::out_of_range."""
+    from bsv import interval
+    from bsv.interval import Iv
+    from bsv.dtab import TOP, INT_TYPES, base_type
+    from rules import nowrap
+    import re
+    rep.rule('R4.6', 'Convert::Detail::To(integer -> integer), every instantiation: over the whole source range a value is stored iff it is '
+                     'representable in the target, the stored value equals the source, otherwise std::out_of_range (interval cells)', floor=60)
+    fs = [f for f in prog.funcs.values() if f.relfile.endswith('conversion_detail/convert_fundamental.h') and f.name == 'To' and len(f.params) == 2
+          and f.params[0]['n'] == 'sourceValue' and f.body is not None]
+    for f in sorted(fs, key=lambda g: g.id):
+        src, dst = base_type(f.type(f.params[0])), base_type(f.type(f.params[1]))
+        if src not in INT_TYPES or dst not in INT_TYPES:
+            continue
+        sr, dr = interval.type_range(src), interval.type_range(dst)
+        rep.touch(f)
+
+        def setup(it, fr, cell):
+            fr.env[f.params[0]['d']] = cell
+            fr.alias[f.params[1]['d']] = 'out.target'
+        cells = nowrap.explore(prog, f, sr[0], sr[1], setup, None, max_depth=1)
+        bad = []
+        for cell, paths in cells:
+            inside = dr[0] <= cell.lo and cell.hi <= dr[1]
+            outside = cell.hi < dr[0] or cell.lo > dr[1]
+            if not (inside or outside):
+                bad.append(('undecided boundary', 'cell [%d, %d] straddles the range of %s' % (cell.lo, cell.hi, dst)))
+                continue
+            rets = [p for p in paths if p.outcome[0] == 'RET']
+            throws = [p for p in paths if p.outcome[0] == 'THROW']
+            for p in throws:
+                if 'out_of_range' not in str(p.outcome[1]):
+                    bad.append(('exception type', 'throws %s for [%d, %d]' % (p.outcome[1], cell.lo, cell.hi)))
+            if inside:
+                good = False
+                for p in rets:
+                    v = p.store.get('out.target', TOP)
+                    iv = interval.as_iv(v)
+                    if iv is not None and getattr(v, 'tag', '') != 'ANY' and (iv.lo, iv.hi) == (cell.lo, cell.hi):
+                        good = True
+                    else:
+                        bad.append(('wrong value stored', 'source values [%d, %d] store %r' % (cell.lo, cell.hi, v)))
+                if not good and not any(b[0] == 'wrong value stored' for b in bad):
+                    bad.append(('valid value refused', 'source values [%d, %d] fit %s but are never stored' % (cell.lo, cell.hi, dst)))
+            else:
+                for p in rets:
+                    if 'out.target' in p.store:
+                        bad.append(('out-of-range value stored', 'source values [%d, %d] do not fit %s but a value (%r) is stored and the call returns normally'
+                                    % (cell.lo, cell.hi, dst, p.store['out.target'])))
+                    else:
+                        bad.append(('out-of-range value accepted', 'source values [%d, %d] do not fit %s but the call returns normally' % (cell.lo, cell.hi, dst)))
+        short = 'To(%s -> %s)' % (src, dst)
+        if bad:
+            seen = set()
+            for kind, msg in bad:
+                if kind in seen:
+                    continue
+                seen.add(kind)
+                rep.finding('R4.6', '%s|%s' % (short, kind), f.loc(), 'Convert::Detail::%s: %s' % (short, msg), func=f.id)
+        else:
+            rep.ok('R4.6', short, sample={'conversion': short, 'cells': [(c.lo, c.hi) for c, _ in cells][:6]})
